@@ -101,7 +101,7 @@ func c12ChunkClass(n int) string {
 	}
 }
 
-func c12RunTCP(run *vk.Run, cs c12TCPCase) {
+func c12RunTCP(run *vk.Run, cs c12TCPCase, budget *c12Budget) {
 	a, b := c12NewConn("A"), c12NewConn("B")
 	epA, cwA := c12Endpoint(a, cs.KindA)
 	epB, cwB := c12Endpoint(b, cs.KindB)
@@ -161,9 +161,12 @@ func c12RunTCP(run *vk.Run, cs c12TCPCase) {
 			start()
 			feedFirstSide()
 		}
+		hcSig := sigBase + "|half-close-not-propagated"
+		w.quick = budget.exhausted(hcSig)
 		out := w.until(func() bool {
 			return second.OutLen() >= firstLen && first.EndSeen() && (!secondCW || second.CWCalled())
 		})
+		w.quick = false
 		run.Count("halfclose_wait_"+out, 1)
 		switch out {
 		case "ok":
@@ -174,7 +177,8 @@ func c12RunTCP(run *vk.Run, cs c12TCPCase) {
 				detail(map[string]any{"note": "Bidirectional returned while the other read side had neither ended nor failed"}))
 		case "hang":
 			if secondCW && !second.CWCalled() && first.EndSeen() && second.OutLen() >= firstLen {
-				run.Violation(sigBase+"|half-close-not-propagated",
+				budget.spend(hcSig)
+				run.Violation(hcSig,
 					detail(map[string]any{"note": "EOF of the first side was consumed and all its bytes delivered, the relay is parked, but CloseWrite was never called on the peer that supports it", "goroutines": w.last}))
 			}
 		}
@@ -204,6 +208,7 @@ func c12RunTCP(run *vk.Run, cs c12TCPCase) {
 	}
 
 	// both read scripts have ended now: the call must return
+	w.quick = budget.exhausted(sigBase + "|mode=hang")
 	out := w.until(func() bool { return w.returned() || a.spun.Load() || b.spun.Load() })
 	self := false
 	switch {
@@ -213,7 +218,10 @@ func c12RunTCP(run *vk.Run, cs c12TCPCase) {
 		self = true
 		run.Count("returned", 1)
 	case out == "hang":
+		budget.spend(sigBase + "|mode=hang")
 		run.Violation(sigBase+"|mode=hang", detail(map[string]any{"goroutines": w.last}))
+	case out == "presumed-hang":
+		run.Count("presumed_hang_not_classified", 1)
 	default:
 		run.Count("watchdog", 1)
 	}
@@ -291,7 +299,7 @@ func TestVerifC12TCP(t *testing.T) {
 	run.Rule("iocopy.Bidirectional between two scripted endpoints: payloads 0..256KiB (thorough ..4MiB) per direction, position-coded; seeded read chunking (1B..1MiB chunks); endpoint kinds {plain, CloseWrite, NewReadWriteCloser over plain/over CloseWrite, NewReadWriteCloserWithCloseWrite}; orders {A half-closes first and B answers only after seeing it, B first, simultaneous, read error on A/B (with and without final data), write error on A/B at a seeded offset}; script fed before or after the relay starts. distinct = (order, kindA, kindB, chunk class, size buckets); non-trivial = at least one byte offered")
 	before := vk.SnapshotGoroutines()
 	r := run.Rand("gen")
-	n := run.Pick(300, 5000)
+	n := run.Pick(600, 6000)
 	cases := make([]c12TCPCase, n)
 	for i := range cases {
 		cases[i] = c12GenTCP(r, i, run.Thorough())
@@ -299,9 +307,10 @@ func TestVerifC12TCP(t *testing.T) {
 	for i := 0; i < 4 && i < n; i++ {
 		run.Sample(cases[i])
 	}
+	budget := &c12Budget{max: 24}
 	c12Pool(n, 8, func(i int) {
 		run.Case(fmt.Sprintf("tcp%d|%s", i, cases[i].Order), cases[i])
-		c12RunTCP(run, cases[i])
+		c12RunTCP(run, cases[i], budget)
 	})
 	if left := before.Leaked([]string{"iocopy.Bidirectional"}, nil, 2*time.Second); len(left) > 0 {
 		if run.Counter("unreleased") == 0 {
